@@ -377,7 +377,7 @@ func (ex *Exec) doAppend(v *ssa.Call, c *ssa.CallCommon, args []Val, pos token.P
 		if ex.isStringy(c.Args[1].Type()) {
 			return "(select (sbytes " + t + ") " + i + ")"
 		}
-		return "(select (select " + E + " (sarr " + t + ")) (+ (soff " + t + ") " + i + "))"
+		return "(select (select " + E + " (sarr " + t + ")) (ix (soff " + t + ") " + i + "))"
 	}
 	if ex.isStringy(c.Args[1].Type()) { // append([]byte, string...)
 		tl = "(slen " + t + ")"
@@ -404,7 +404,7 @@ func (ex *Exec) doAppend(v *ssa.Call, c *ssa.CallCommon, args []Val, pos token.P
 	if static >= 0 && static <= 4 {
 		A = oldArr
 		for j := 0; j < static; j++ {
-			A = sSto(A, fmt.Sprintf("(+ (soff %s) (slen_ %s) %d)", s, s, j), tget(fmt.Sprint(j)))
+			A = sSto(A, fmt.Sprintf("(ix (soff %s) (+ (slen_ %s) %d))", s, s, j), tget(fmt.Sprint(j)))
 		}
 		A = ex.vc.define(ex.pfx+"appdata", "(Array Int "+srt+")", A)
 	} else {
@@ -447,7 +447,7 @@ func (ex *Exec) doCopy(c *ssa.CallCommon, args []Val, pos token.Pos) Val {
 		sget = "(select (sbytes " + s + ") %s)"
 	} else {
 		sl2 = "(slen_ " + s + ")"
-		sget = "(select (select " + E + " (sarr " + s + ")) (+ (soff " + s + ") %s))"
+		sget = "(select (select " + E + " (sarr " + s + ")) (ix (soff " + s + ") %s))"
 	}
 	n := ex.vc.define(ex.pfx+"copyn", "Int", sIte("(<= (slen_ "+d+") "+sl2+")", "(slen_ "+d+")", sl2))
 	A := ex.vc.fresh(ex.pfx+"copydata", "(Array Int "+srt+")")
@@ -663,7 +663,6 @@ func (ex *Exec) contractCall(key string, spec *FuncSpec, callee *ssa.Function, t
 	for k, r := range spec.Requires {
 		t := ev.evalBool(r.Expr)
 		ex.vc.oblige(fmt.Sprintf("call.%s.requires[%d]", callee.Name(), k+1)+ordSuffix(ord), "", pos, ex.curReach, t, "precondition of "+key+": "+r.Text)
-		ex.vc.assume(sImp(ex.curReach, t))
 	}
 	// findings carve-out of the callee: the caller must stay outside, otherwise it inherits the finding
 	for _, f := range spec.Findings {
